@@ -53,6 +53,15 @@ class T(ast.NodeTransformer):
             return ast.Call(func=self._vf('m_join'), args=[f.value, node.args[0]], keywords=[])
         return node
 
+    def visit_Compare(self, node):
+        self.generic_visit(node)
+        if len(node.ops) == 1 and isinstance(node.ops[0], (ast.In, ast.NotIn)):
+            call = ast.Call(func=self._vf('contains'), args=[node.comparators[0], node.left], keywords=[])
+            if isinstance(node.ops[0], ast.NotIn):
+                return ast.UnaryOp(op=ast.Not(), operand=call)
+            return call
+        return node
+
     def visit_BinOp(self, node):
         self.generic_visit(node)
         if isinstance(node.op, ast.Mod) and isinstance(node.left, ast.Constant) and isinstance(node.left.value, str):
